@@ -321,6 +321,47 @@ fn value_diff(a: &Value, b: &Value) -> Option<String> {
     }
 }
 
+/// The sequence of attribute names, leaves and slot markers of a value with the record body
+/// boundaries left out: what remains of the parse event stream when StartBody / EndRecord are ignored.
+fn flat(v: &Value, out: &mut Vec<String>) {
+    use swimos_model::Item;
+    match v {
+        Value::Record(attrs, items) => {
+            for a in attrs {
+                out.push(format!("@{:?}(", a.name.as_str()));
+                match &a.value {
+                    Value::Extant => {}
+                    ow => flat(ow, out),
+                }
+                out.push(")".into());
+            }
+            for i in items {
+                match i {
+                    Item::ValueItem(x) => flat(x, out),
+                    Item::Slot(k, x) => {
+                        flat(k, out);
+                        out.push(":".into());
+                        flat(x, out);
+                    }
+                }
+            }
+        }
+        ow => out.push(format!("{:?}", from_value_raw(ow))),
+    }
+}
+
+/// Cell for two values that are not equal: do they differ only in how the same leaves are nested?
+fn unequal_cell(a: &Value, b: &Value) -> String {
+    let (mut fa, mut fb) = (vec![], vec![]);
+    flat(a, &mut fa);
+    flat(b, &mut fb);
+    if fa == fb {
+        "nesting-only".into()
+    } else {
+        last_two(&value_diff(a, b).unwrap_or_default())
+    }
+}
+
 fn last_two(d: &str) -> String {
     let parts: Vec<&str> = d.split('/').collect();
     let n = parts.len();
@@ -395,7 +436,7 @@ fn check_texts(v: &mut Verdict, ta: &str, tb: &str) -> PairFacts {
                 v.fail(
                     format!(
                         "cmp-false-positive:{}",
-                        last_two(&value_diff(pa, pb).unwrap_or_default())
+                        unequal_cell(pa, pb)
                     ),
                     format!(
                         "{:?} parses to {:?}, {:?} parses to {:?} (not equal) but compare_recon_values says they are equal",
@@ -421,15 +462,9 @@ fn check_texts(v: &mut Verdict, ta: &str, tb: &str) -> PairFacts {
             );
         }
     }
-    if cmp_ab && hashes(ta) != hashes(tb) {
-        let cell = if both_valid {
-            match (f.pa.as_ref().unwrap(), f.pb.as_ref().unwrap()) {
-                (x, y) if x != y => "values-differ".to_string(),
-                _ => text_cell(ta, tb),
-            }
-        } else {
-            validity.to_string()
-        };
+    // (when the comparison is wrongly `true` the differing hashes are a consequence, not a second defect)
+    if cmp_ab && f.expected_equal && hashes(ta) != hashes(tb) {
+        let cell = if both_valid { text_cell(ta, tb) } else { validity.to_string() };
         v.fail(
             format!("hash-differs:{}", cell),
             format!("compare({:?}, {:?}) = true but recon_hash differs", ta, tb),
@@ -516,7 +551,7 @@ fn check_backpressure(case: &PairCase) -> Verdict {
         } else if f.expected_equal {
             text_cell(&ta, &tb)
         } else {
-            last_two(&value_diff(f.pa.as_ref().unwrap(), f.pb.as_ref().unwrap()).unwrap_or_default())
+            unequal_cell(f.pa.as_ref().unwrap(), f.pb.as_ref().unwrap())
         };
         v.fail(
             format!("backpressure:{}:{}", what, cell),
@@ -580,6 +615,110 @@ fn arb_small() -> BoxedStrategy<V> {
     .boxed()
 }
 
+/// All "skeleton" values with exactly `n` nodes: leaves 1 / {} , attribute name `a`, slot key `k`.
+fn skeletons(n: usize, memo: &mut Vec<Vec<V>>) -> Vec<V> {
+    if let Some(v) = memo.get(n) {
+        if !v.is_empty() || n == 0 {
+            return v.clone();
+        }
+    }
+    let out = if n == 1 {
+        vec![V::I32(1), V::Record(vec![], vec![])]
+    } else {
+        // a record whose children (attribute values, items) have n-1 nodes in total
+        let mut out = vec![];
+        // shapes: (number of attrs 0..=2, number of items 0..=3)
+        for na in 0..=2usize {
+            for ni in 0..=3usize {
+                let k = na + ni;
+                if k == 0 || k > n - 1 {
+                    continue;
+                }
+                // compositions of n-1 into k positive parts
+                let mut parts = vec![1usize; k];
+                loop {
+                    if parts.iter().sum::<usize>() == n - 1 {
+                        // cartesian product of children
+                        let choices: Vec<Vec<V>> = parts.iter().map(|p| skeletons(*p, memo)).collect();
+                        let mut idx = vec![0usize; k];
+                        'prod: loop {
+                            let kids: Vec<V> = idx.iter().zip(&choices).map(|(i, c)| c[*i].clone()).collect();
+                            let attrs: Vec<(String, V)> = kids[..na].iter().map(|x| ("a".to_string(), x.clone())).collect();
+                            // items: plain values, and (variant) the last item as a slot k: value
+                            let items: Vec<I> = kids[na..].iter().map(|x| I::Val(x.clone())).collect();
+                            out.push(V::Record(attrs.clone(), items.clone()));
+                            if ni >= 1 {
+                                let mut items2 = items.clone();
+                                if let Some(I::Val(x)) = items2.pop() {
+                                    items2.push(I::Slot(V::text("k"), x));
+                                }
+                                out.push(V::Record(attrs, items2));
+                            }
+                            let mut d = 0;
+                            loop {
+                                if d == k {
+                                    break 'prod;
+                                }
+                                idx[d] += 1;
+                                if idx[d] < choices[d].len() {
+                                    break;
+                                }
+                                idx[d] = 0;
+                                d += 1;
+                            }
+                        }
+                    }
+                    // next composition (odometer over 1..=n-1)
+                    let mut d = 0;
+                    loop {
+                        if d == k {
+                            break;
+                        }
+                        parts[d] += 1;
+                        if parts[d] <= n - 1 {
+                            break;
+                        }
+                        parts[d] = 1;
+                        d += 1;
+                    }
+                    if d == k {
+                        break;
+                    }
+                }
+            }
+        }
+        // an attribute without a value also counts as one node
+        for inner in skeletons(n - 1, memo) {
+            if let V::Record(attrs, items) = inner {
+                let mut a2 = vec![("a".to_string(), V::Extant)];
+                a2.extend(attrs);
+                if a2.len() <= 2 {
+                    out.push(V::Record(a2, items));
+                }
+            } else {
+                out.push(V::Record(vec![("a".to_string(), V::Extant)], vec![I::Val(inner)]));
+            }
+        }
+        let mut seen = std::collections::HashSet::new();
+        out.retain(|x| seen.insert(format!("{:?}", x)));
+        out
+    };
+    while memo.len() <= n {
+        memo.push(vec![]);
+    }
+    memo[n] = out.clone();
+    out
+}
+
+#[derive(Clone, Debug, Serialize, Deserialize)]
+struct TextPair(String, String);
+
+fn check_text_pair(case: &TextPair) -> Verdict {
+    let mut v = Verdict::new();
+    check_texts(&mut v, &case.0, &case.1);
+    v
+}
+
 fn main() {
     let args: Vec<String> = std::env::args().skip(1).collect();
     let mut ctx = Ctx::new("C15", &args);
@@ -595,6 +734,31 @@ fn main() {
     ctx.assume("a string is valid Recon iff parse_recognize::<Value>(s, false) accepts it; equality of parsed values is Value::eq");
     ctx.assume("hash agreement is checked with two hashers (SipHash DefaultHasher and an FNV byte hasher)");
     ctx.assume("MapBackpressure (swimos_runtime verif-hooks re-export) uses the private ReconKey internally; its HashMap uses RandomState, which cannot turn a correct comparison into a failure");
+    // bounded exhaustive: all pairs of small structural skeletons (canonical rendering)
+    let max_nodes = ctx.pick(4, 5);
+    let mut memo = vec![];
+    let mut skel: Vec<String> = vec![];
+    for n in 1..=max_nodes {
+        for v in skeletons(n, &mut memo) {
+            skel.push(render(&v, &[]));
+        }
+    }
+    skel.sort();
+    skel.dedup();
+    println!("C15: {} skeleton texts ({} ordered pairs)", skel.len(), skel.len() * (skel.len() + 1) / 2);
+    {
+        let skel = &skel;
+        let n = skel.len();
+        ctx.enumerate(
+            "skeleton-pairs",
+            |w, ws| {
+                (0..n)
+                    .filter(move |i| i % ws == w)
+                    .flat_map(move |i| (i..n).map(move |j| TextPair(skel[i].clone(), skel[j].clone())))
+            },
+            |c| guard(check_text_pair, c),
+        );
+    }
     ctx.prop("pairs", ctx.pick(100_000, 10_000_000), arb_pair, |c| guard(check_pair, c));
     ctx.prop("backpressure-keys", ctx.pick(40_000, 2_000_000), arb_pair, |c| guard(check_backpressure, c));
     ctx.finish();
